@@ -22,14 +22,42 @@ from renormalizer.model.basis import BasisDummy
 from renormalizer.tn import TTNS, TTNO, BasisTree, TreeNodeBasis
 
 
+def qn_size(spec):
+    """spec["qn"]: false / true (one quantum number: spins and electrons counted together) / 2 (two components:
+    (number of up spins, number of electrons))"""
+    return 2 if (spec.get("qn") == 2 and spec.get("qn") is not True) else 1
+
+
+def qntot_of(spec):
+    if not spec.get("qn"):
+        return 0
+    if qn_size(spec) == 2:
+        return np.array([int(x) for x in spec["qntot"]])
+    return int(spec["qntot"])
+
+
+def dummy_basis(dof, qn):
+    if qn == 2 and qn is not True:
+        return BasisDummy(dof, sigmaqn=[[0, 0]])
+    return BasisDummy(dof)
+
+
 def make_basis(desc, dof, qn):
     k = desc["k"]
+    two = (qn == 2 and qn is not True)
     if k == "spin":
+        if two:
+            return BasisHalfSpin(dof, sigmaqn=[[0, 0], [1, 0]])
         return BasisHalfSpin(dof, sigmaqn=[0, 1]) if qn else BasisHalfSpin(dof)
     if k == "elec":
+        if two:
+            return BasisSimpleElectron(dof, sigmaqn=[[0, 0], [0, 1]])
         return BasisSimpleElectron(dof) if qn else BasisSimpleElectron(dof, sigmaqn=[0, 0])
     if k == "sho":
-        return BasisSHO(dof, omega=1.0, nbas=int(desc["n"]))
+        b = BasisSHO(dof, omega=1.0, nbas=int(desc["n"]))
+        if two:
+            b.sigmaqn = np.zeros((b.nbas, 2), dtype=int)
+        return b
     raise ValueError(k)
 
 
@@ -37,12 +65,12 @@ def build_basis_tree(spec, order=None):
     """Returns (BasisTree, {abstract id: TreeNodeBasis}, {dof: basis}).  `order` overrides spec['order']
     (same tree, children listed differently)."""
     order = spec["order"] if order is None else order
-    qn = bool(spec.get("qn"))
+    qn = spec.get("qn")
     nodes = {}
     dof2basis = {}
     for i, descs in enumerate(spec["nodes"]):
         if not descs:
-            nodes[i] = TreeNodeBasis([BasisDummy(("dummy", i))])
+            nodes[i] = TreeNodeBasis([dummy_basis(("dummy", i), qn)])
         else:
             bs = []
             for j, d in enumerate(descs):
@@ -122,7 +150,8 @@ def spin_like_dofs(spec):
 
 def build_terms(spec, opspec):
     """opspec: list of terms; a term = {"f": int factor, "ops": [[symbol, dof], ...]} ; returns list[Op]"""
-    qn = bool(spec.get("qn"))
+    qn = spec.get("qn")
+    two = qn_size(spec) == 2
     kinds = dict(spin_like_dofs(spec))
     terms = []
     for t in opspec:
@@ -138,6 +167,8 @@ def build_terms(spec, opspec):
                     q = {"sigma_+": -1, "sigma_-": 1}.get(s, 0)
                 elif kinds[dof] == "elec":
                     q = {r"a^\dagger": 1, "a": -1}.get(s, 0)
+            if two:
+                q = [q, 0] if kinds[dof] == "spin" else ([0, q] if kinds[dof] == "elec" else [0, 0])
             qns.append(q)
         terms.append(Op(" ".join(syms), dofs, factor=t["f"], qn=qns))
     return terms
